@@ -4,7 +4,7 @@
 using namespace vf;
 
 static long long g_idx = 0;
-struct S : squids::SQuIDS { S(unsigned nx) : squids::SQuIDS(nx, 2, 1, 0, 0.0) {} };
+struct S : squids::SQuIDS { S(unsigned nx) : squids::SQuIDS(nx, 2, 1, 0, 0.0) {} void reini(unsigned nx) { ini(nx, 2, 1, 0, 0.0); } };
 
 static bool pow2(unsigned v) { return v && !(v & (v - 1)); }
 
@@ -140,6 +140,20 @@ int main(int argc, char** argv) {
         }
       }
     }
+  }
+  // ---- re-initialisation with another number of nodes between two grids: exactly nx nodes, those of a fresh object, lookups for them
+  for (unsigned n1 : {9u, 5u, 3u, 17u}) for (unsigned n2 : {2u, 3u, 5u, 12u}) for (int kind = 0; kind < 3; kind++) {
+    if (n1 == n2) continue;
+    count("evaluations"); count("reinitialisation_histories"); distinct(ref::fnv(&n1, 4, n2 * 10 + kind));
+    S s(n1); s.Set_xrange(0.5, 50.0, kind == 1 ? "log" : "lin"); (void)s.Get_i(25.0);
+    s.reini(n2);
+    S f(n2); std::vector<double> ug(n2); for (unsigned i = 0; i < n2; i++) ug[i] = 1.0 + 0.5 * i * i;
+    if (kind == 0) { s.Set_xrange(1.0, 4.0, "lin"); f.Set_xrange(1.0, 4.0, "lin"); } else if (kind == 1) { s.Set_xrange(1.0, 4.0, "log"); f.Set_xrange(1.0, 4.0, "log"); } else { s.Set_xrange(ug); f.Set_xrange(ug); }
+    std::vector<double> x = s.Get_xrange(), want = f.Get_xrange();
+    std::string ctx = J().i("nx_before", n1).i("nx_after", n2).i("grid_kind", kind).done();
+    bool same = x.size() == want.size() && x.size() == n2; for (size_t k = 0; same && k < x.size(); k++) if (!ref::biteq(x[k], want[k])) same = false;
+    if (!same) { violation("re-initialisation:grid-differs-from-fresh-object", "{\"case\":" + ctx + ",\"got\":" + jarr(x) + ",\"fresh\":" + jarr(want) + "}"); continue; }
+    lookups(s, x, "after-re-initialisation", ctx);
   }
   finish();
   return 0;
